@@ -281,6 +281,9 @@ class YPPrologVisitor(prologVisitor):
             t = Functor(t,[])
         if not isinstance(t, Functor):
             raise CompilerError(self.context.current_source_file, ctx.term(), f"'{ctx.term().getText()}' is not a functor")
+        if isinstance(t.name, Atom) and t.name.value == '$CUTIF':
+            # the code generator uses this name internally and pastes its argument into the code
+            raise CompilerError(self.context.current_source_file, ctx.term(), "'$CUTIF' is reserved for the compiler")
         return Predicate(t)
 
     def visitPredicateexpression(self,ctx):
